@@ -308,6 +308,10 @@ func Main() {
 	consts := server.VerifConsts()
 	emit(event{"ev": "start", "scenario": scenario, "seed": seed, "consts": consts})
 
+	if scenario == "clientlife" {
+		emit(clientLifeEpisode(work, seed))
+		return
+	}
 	f := &fake{scenario: scenario, devs: map[string]*dev{}, byLat: map[string]*dev{}, rng: rng}
 	startFake(work, f)
 	if scenario == "life" {
